@@ -314,6 +314,8 @@ def parse_model_tables(lines, gid):
             m['nullable'] = [int(x) for x in f[1:]]
         elif k == 'needpacked':
             m['need'] = f[1] == '1'
+        elif k == 'wfcheck':
+            m['wf'] = f[1] == '1'
         elif k == 'adef':
             m['adef'] = f[1:]
         elif k == 'gdef':
